@@ -1261,9 +1261,11 @@ class DayTimeDuration(Duration):
 
     @classmethod
     def fromtimedelta(cls, td: datetime.timedelta) -> 'DayTimeDuration':
-        return cls(seconds=Decimal(
-            '{}.{:06}'.format(td.days * 86400 + td.seconds, td.microseconds)
-        ))
+        # A negative timedelta has only the days negative (e.g. -0.5s is -1 day,
+        # 86399 seconds and 500000 microseconds): sum the parts, don't join them.
+        return cls(
+            seconds=Decimal(td.days * 86400 + td.seconds) + Decimal(td.microseconds) / 1000000
+        )
 
     def __init__(self, seconds: Union[Decimal, int] = 0) -> None:
         """
